@@ -102,7 +102,7 @@ def _all_params(fi):
     return out
 
 
-def _defs(fi, name):
+def _defs(fi, name, _depth=0):
     """Value expressions bound to local ``name``: [(stmt, value expr or None)]; element-wise for
     ``a, b = x, y``; None when the value cannot be told (loop target, unpacking of a call, ``+=`` ...)."""
     out = []
@@ -114,6 +114,16 @@ def _defs(fi, name):
                    isinstance(t.elts[idx], ast.Name) and t.elts[idx].id == name]
             if tgt and len(tgt[0].elts) == len(val.elts) and not any(isinstance(e, ast.Starred) for e in list(tgt[0].elts) + list(val.elts)):
                 out.append((st, val.elts[idx]))
+            else:
+                out.append((st, None))
+        elif isinstance(idx, int) and isinstance(val, ast.Name) and isinstance(st, ast.Assign) and _depth < 2 and val.id != name:
+            # a, b = pair  with  pair = (x, y)  bound once (``pair = None`` on a path that cannot reach the unpacking does not count)
+            tgt = [t for t in st.targets if isinstance(t, (ast.Tuple, ast.List)) and len(t.elts) > idx and
+                   isinstance(t.elts[idx], ast.Name) and t.elts[idx].id == name]
+            pd = [v for s2, v in _defs(fi, val.id, _depth + 1) if not (isinstance(v, ast.Constant) and v.value is None)]
+            if tgt and len(pd) == 1 and isinstance(pd[0], (ast.Tuple, ast.List)) and len(pd[0].elts) == len(tgt[0].elts) and \
+                    not any(isinstance(e, ast.Starred) for e in list(tgt[0].elts) + list(pd[0].elts)):
+                out.append((st, pd[0].elts[idx]))
             else:
                 out.append((st, None))
         else:
@@ -164,6 +174,18 @@ def _inline(fi, expr, stable=(), outer=None, depth=0):
             return node
 
     return T().visit(copy.deepcopy(expr))
+
+
+def _item_stores(fi, name):
+    """[(stmt, key expr)] for every ``name[key] = ...`` in the function (also as an element of a tuple target)."""
+    out = []
+    for st in stmts_of(fi.node):
+        if isinstance(st, (ast.Assign, ast.AugAssign, ast.AnnAssign)):
+            for t in (st.targets if isinstance(st, ast.Assign) else [st.target]):
+                for x in (t.elts if isinstance(t, (ast.Tuple, ast.List)) else [t]):
+                    if isinstance(x, ast.Subscript) and isinstance(x.value, ast.Name) and x.value.id == name:
+                        out.append((st, x.slice))
+    return out
 
 
 def _bound_var(mod, node):
@@ -686,11 +708,15 @@ def _roles(rep):
     R.kwt = dict((k, norm(v)) for k, v in R.kw.items())
     R.opvar = R.kwt.get('arity') if isinstance(R.kw.get('arity'), ast.Name) else None
     # table lookups: table name -> [(Subscript node, key text, local it is bound to)]
-    R.lookups = {}
+    R.lookups = dict((tab, []) for tab in TYPE_TABLES + OP_TABLES)
     for n in walk_body(cp.node):
         if isinstance(n, ast.Subscript) and isinstance(n.ctx, ast.Load) and isinstance(n.value, ast.Name) and \
                 n.value.id in TYPE_TABLES + OP_TABLES and n.value.id not in _all_params(cp) and not _stores(cp.node, n.value.id):
             R.lookups.setdefault(n.value.id, []).append((n, norm(n.slice), _bound_var(route, n)))
+
+    missing = [tab for tab in TYPE_TABLES + OP_TABLES if not R.lookups[tab]]
+    if missing:
+        raise AnalysisError('_compile_path_pattern: no lookup %s[...] found' % missing[0])
 
     def table_of(expr):
         """(table, key text) an expression reads: a direct lookup or a local bound once to a lookup."""
@@ -877,7 +903,7 @@ def _rule_c(rep, R):
         rep.check('R05.c', fkey(cp, 'lookups guarded: ' + label), ok, 'every lookup in %s fails as InvalidPattern' % ' / '.join(tables) if ok else
                   'a lookup in %s can raise a bare KeyError (not under the rejecting handler / membership test): %s' %
                   (' / '.join(tables), short(stmt_of(route, todo[0][0]), 60) if todo else 'no lookup found'), route, todo[0][0] if todo else cp.node)
-    dup_store = [s for s in stmts_of(cp.node) if isinstance(s, ast.Assign) and norm(s.targets[0]).startswith(VCM + '[')]
+    dup_store = _item_stores(cp, VCM)
     ok = len(dup_store) == 1 and 'duplicate binding' in found
     rep.check('R05.c', fkey(cp, 'bindings recorded'), ok, 'every binding is recorded, so a second use of the name is seen' if ok else
               'bindings are not recorded in var_converter_map', route, cp.node)
@@ -996,7 +1022,16 @@ def _rule_d_matching(rep):
 def _optional_empty(fi, ret, v):
     """The return is taken exactly under the facts "optional" and "value is empty" (in either order / nesting)."""
     cs = conds(fi, ret)
-    return has_cond(cs, lambda t: norm(t) == 'optional', True) and implies_absent(cs, v)
+    if not (has_cond(cs, lambda t: norm(t) == 'optional', True) and implies_absent(cs, v)):
+        return False
+    # ... and under nothing else: every other condition on the path is a conjunction these two facts were split from
+    for t, pol in cs:
+        if isinstance(t, ast.BoolOp) and ((isinstance(t.op, ast.And) and pol is True) or (isinstance(t.op, ast.Or) and pol is False)):
+            continue
+        if (norm(t) == 'optional' and pol is True) or implies_absent([(t, pol)], v):
+            continue
+        return False
+    return True
 
 
 def _list_of_conversions(fi, outer, ret, v, conv):
@@ -1015,6 +1050,9 @@ def _list_of_conversions(fi, outer, ret, v, conv):
             return False
         loop = fi.mod.parents.get(appends[0])
         body = fi.node.body
+        init = [st for st in body if isinstance(st, (ast.Assign, ast.AnnAssign)) and L in names_stored(st)]
+        if len(init) != 1 or loop not in body or body.index(init[0]) > body.index(loop):
+            return False        # the accumulator is created once, before the loop, at the top level of the converter
         if not (isinstance(loop, ast.For) and loop in body and not loop.orelse and isinstance(loop.target, ast.Name) and
                 all(isinstance(s, (ast.Assign, ast.Expr)) for s in loop.body) and ret in body and body.index(loop) < body.index(ret)):
             return False
@@ -1044,6 +1082,9 @@ def _rule_e_converters(rep):
     stable_outer = all(_stores(bcv.node, n) == 0 for n in (conv, 'optional', 'multi'))
     inner = dict((f.name, f) for q, f in route.functions.items() if q.startswith('build_converter.') and q.count('.') == 1)
     rets = returns_of(bcv)
+    if len(rets) != 2 or not all(r.value is not None and norm(r.value) in inner for r in rets) or len(set(norm(r.value) for r in rets)) != 2:
+        raise AnalysisError('build_converter: expected two nested converter functions, one of which is returned (found: %s)' %
+                            ', '.join(short(r, 40) for r in rets))
     multi_ret = [r for r in rets if has_cond(conds(bcv, r), lambda t: norm(t) == 'multi', True)]
     single_ret = [r for r in rets if r not in multi_ret]
     ok = stable_outer and len(multi_ret) == 1 and len(single_ret) == 1 and norm(multi_ret[0].value) in inner and norm(single_ret[0].value) in inner and \
@@ -1184,8 +1225,7 @@ def _rule_e_bindings(rep, R, convs, pats):
             raise AnalysisError('_compile_path_pattern: %s = %s is not recognised as a group of BINDING.match(...)' % (var, short(s[0][1], 50)))
         got[role] = g
     ok = all(got[r] == r for r in roles)
-    vcm_keys = [s for s in stmts_of(cp.node) if isinstance(s, ast.Assign) and isinstance(s.targets[0], ast.Subscript) and norm(s.targets[0].value) == R.vcm]
-    ok = ok and all(norm(s.targets[0].slice) == R.namevar for s in vcm_keys)
+    ok = ok and all(norm(key) == R.namevar for st, key in _item_stores(cp, R.vcm))
     rep.check('R05.e', fkey(cp, 'groups unpacked'), ok, 'name / type / op are taken from the groups of the same name' if ok else
               'the parsed binding groups are unpacked into the wrong variables: %s' % ', '.join('%s <- group %r' % (roles[r], got[r]) for r in sorted(roles)), route, cp.node)
 
